@@ -318,8 +318,12 @@ def check(case, ctx):
             fails.append({'what': 'WebVTT output contains a non-percentage length', 'settings': settings})
     else:
         doc = parsers.parse_sami(out)
-        m = re.search(r'\.en\s*\{([^}]*)\}', doc['css'])
-        block = m.group(1) if m else ''
+        # the block of the observed language is the one that declares `lang: en` (its selector is the writer's
+        # business)
+        block = ''
+        for sel, body in re.findall(r'([^{}]+)\{([^}]*)\}', doc['css']):
+            if re.search(r'(^|;|\s)lang:\s*en\s*;', body):
+                block = body
         pad = rel.get('padding')
         got = {k: v for k, v in re.findall(r'(margin-[a-z]+):\s*([^;]+);', block)}
         if case['level'] == 'lang':
